@@ -2,6 +2,7 @@ SPECIFICATION Spec
 CONSTANTS MaxOps = 4 RawOps = 7
   Shapes <- ShapesQ
   Datas <- DatasQ
+  RawDatas <- RawDatasQ
   Ks <- KsQ
   OpenArgs <- OpenQ
   SeekArgs <- SeekQ
